@@ -50,6 +50,8 @@ class StmtMixin:
                         nxt.append(s2)
                     else:
                         results.append((s2, out))
+            if len(nxt) > 1 and getattr(self.contract, "merge_paths", True):
+                nxt = self.merge_states(nxt)
             states = nxt
             self.paths_seen = max(self.paths_seen, len(states) + len(results))
             if len(states) + len(results) > self.contract.path_limit:
@@ -58,6 +60,134 @@ class StmtMixin:
                 break
         results.extend((s, NORMAL) for s in states)
         return results
+
+    # ------------------------------------------------------------------ state merging at join points
+    def merge_states(self, states):
+        """Join the normally-continuing states of a statement into one (selector booleans b_i with
+        b_i => facts-of-branch-i, Or(b_i); variables become ite-chains).  Exact: the merged state
+        denotes the union of the branch states.  States whose Python-level values (functions, classes,
+        iterator views) differ are left unmerged."""
+        groups = []
+        for s in states:
+            for g in groups:
+                if self._mergeable(g[0], s):
+                    g.append(s)
+                    break
+            else:
+                groups.append([s])
+        return [self._merge_group(g) if len(g) > 1 else g[0] for g in groups]
+
+    def _mergeable(self, a: State, b: State) -> bool:
+        if set(a.env) != set(b.env):
+            # a name bound on one side only is dropped if it is a plain value; python-level ones block
+            pass
+        for n in set(a.env) & set(b.env):
+            x, y = a.env[n], b.env[n]
+            if x is y:
+                continue
+            if x.kind in ("func", "cls", "pyobj") or y.kind in ("func", "cls", "pyobj"):
+                if x.kind != y.kind or x.py != y.py:
+                    return False
+        if len(a.guards) or len(b.guards):
+            return False
+        return True
+
+    def _merge_group(self, group):
+        n0 = 0
+        first = group[0].pc
+        while all(len(s.pc) > n0 and s.pc[n0] is first[n0] for s in group):
+            n0 += 1
+        m = group[0].copy()
+        m.pc = list(first[:n0])
+        sels = [fresh("br", BoolS) for _ in group]
+        for b, s in zip(sels, group):
+            delta = s.pc[n0:]
+            if delta:
+                m.pc.append(z3.Implies(b, z3.And(*delta) if len(delta) > 1 else delta[0]))
+        m.pc.append(z3.Or(*sels))
+
+        def pick(vals):
+            """vals: list of Sym (same length as group) -> merged Sym"""
+            v0 = vals[0]
+            if all(v is v0 for v in vals):
+                return v0
+            kinds = {v.kind for v in vals}
+            if kinds <= {"func", "cls", "pyobj"}:
+                return v0
+            if len(kinds) == 1 and v0.kind in ("int", "bool", "seq", "set"):
+                t = vals[-1].t
+                for b, v in zip(reversed(sels[:-1]), reversed(vals[:-1])):
+                    t = z3.If(b, v.t, t)
+                specs = {str(v.spec) for v in vals}
+                return Sym(v0.kind, t, v0.spec if len(specs) == 1 else (Spec("seq", VAL) if v0.kind == "seq" else v0.spec))
+            if len(kinds) == 1 and v0.kind == "dict":
+                keys, dv = vals[-1].py.keys, vals[-1].py.vals
+                for b, v in zip(reversed(sels[:-1]), reversed(vals[:-1])):
+                    keys = z3.If(b, v.py.keys, keys)
+                    dv = z3.If(b, v.py.vals, dv)
+                same = len({(str(v.py.kspec), str(v.py.vspec)) for v in vals}) == 1
+                return Sym("dict", None, v0.spec, DictPayload(keys, dv, v0.py.kspec if same else VAL, v0.py.vspec if same else VAL))
+            boxed = [box(v, m) for v in vals]
+            t = boxed[-1]
+            for b, x in zip(reversed(sels[:-1]), reversed(boxed[:-1])):
+                t = z3.If(b, x, t)
+            specs = {str(v.spec) for v in vals}
+            return S_val(t, v0.spec if len(specs) == 1 and len(kinds) == 1 else None)
+
+        names = set()
+        for s in group:
+            names |= set(s.env)
+        env = {}
+        for n in names:
+            if all(n in s.env for s in group):
+                env[n] = pick([s.env[n] for s in group])
+            else:
+                # bound on some paths only: keep a value (reading it on the other paths would be an
+                # UnboundLocalError in Python; not modelled)
+                have = [s.env[n] for s in group if n in s.env]
+                env[n] = pick([s.env[n] if n in s.env else have[0] for s in group])
+        m.env = env
+        hkeys = set()
+        for s in group:
+            hkeys |= set(s.heap)
+        heap = {}
+        for k in hkeys:
+            vals = []
+            for s in group:
+                if k in s.heap:
+                    vals.append(s.heap[k])
+                else:
+                    owner = None
+                    for s2 in group:
+                        if owner is None:
+                            owner = s2.notes.get("heap_terms", {}).get(k)
+                    sample = next(s2.heap[k] for s2 in group if k in s2.heap)
+                    vals.append(self._initial_field(owner, k[1], sample, m))
+            heap[k] = pick(vals)
+        m.heap = heap
+        ht = {}
+        bx = {}
+        for s in group:
+            ht.update(s.notes.get("heap_terms", {}))
+            bx.update(s.notes.get("boxed", {}))
+        m.notes["heap_terms"] = ht
+        m.notes["boxed"] = bx
+        ys = [s.yielded for s in group]
+        if any(y is not None for y in ys):
+            ys = [y if y is not None else Sym("seq", Q.Empty(), Spec("seq", VAL)) for y in ys]
+            m.yielded = pick(ys)
+        m.trace = group[0].trace[:] + ["⋈"]
+        if any(s.notes.get("bounded") for s in group):
+            m.notes["bounded"] = True
+        return m
+
+    def _initial_field(self, owner, attr, sample: Sym, st) -> Sym:
+        from .values import fld as _fld, unbox as _unbox
+        t = _fld(attr)(owner)
+        if sample.kind == "val":
+            return S_val(t, sample.spec)
+        sp = sample.spec or self.field_spec(attr)
+        return _unbox(sp if sp.kind != "val" else self.field_spec(attr), t, st, facts=False)
 
     def flush(self, st: State):
         """Turn the exceptional forks recorded while evaluating expressions into outcomes."""
@@ -104,6 +234,11 @@ class StmtMixin:
             return self.simple(st)
         if isinstance(v, ast.Call) and self.is_logging(v):
             return [(st, NORMAL)]
+        if isinstance(v, ast.Call) and isinstance(v.func, ast.Attribute) and v.func.attr in self.MUTATORS:
+            txt = ast.unparse(v.func.value)
+            if any(txt.startswith(u) for u in self.contract.unmodelled):
+                self.collector.assumptions.add(f"{self.kernel.qualname}: statement `{ast.unparse(v)[:60]}` mutates state outside the model; skipped")
+                return [(st, NORMAL)]
         self.eval(v, st)
         return self.simple(st)
 
